@@ -63,13 +63,24 @@ func (a c19SS) Load(k string) (int, bool) {
 	if !ok {
 		return 0, false
 	}
+	if v == nil {
+		return 0, true
+	}
 	n, isInt := v.(int)
 	if !isInt {
 		return -1, true
 	}
 	return n, true
 }
-func (a c19SS) Store(k string, v int) { a.s.Store(k, v) }
+
+// the value 0 is stored as nil: `any(nil)` is a legal value of the session storage and must stay distinguishable from "absent"
+func (a c19SS) Store(k string, v int) {
+	if v == 0 {
+		a.s.Store(k, nil)
+		return
+	}
+	a.s.Store(k, v)
+}
 func (a c19SS) Delete(k string)       { a.s.Delete(k) }
 func (a c19SS) Len() int              { return a.s.Len() }
 func (a c19SS) Range(f func(k string, v int) bool) {
@@ -180,6 +191,9 @@ func c19Seq(c *Ctx, kind, req, nkeys, nops int) (err error) {
 		switch p := c.Rng.Intn(100); {
 		case p < 34:
 			v := c.Rng.Intn(1 << 20)
+			if c.Rng.Intn(6) == 0 {
+				v = 0 // the zero value (nil in the session storage, see c19SS.Store): a legal value, not "absent"
+			}
 			m.Store(k, v)
 			oracle[k] = v
 			log = append(log, fmt.Sprintf("Store(%s,%d)", k, v))
